@@ -196,7 +196,8 @@ class Env:
                 env.body_runs[key] = env.body_runs.get(key, 0) + 1  # counts completed runs
                 return rv
             m = h.Module()
-            m.p = h.Port(width=1 + (hash64(repr_params(p)) % 3))
+            # (a generator that does not cache may depend on outside state: here, how often it ran)
+            m.p = h.Port(width=1 + ((hash64(repr_params(p)) + (0 if g["cache"] else env.attempts[gid])) % 3))
             if g["body"] == "call":
                 inner = env.gens[g["callee"]]
                 sub = inner(env.derive(g["callee"], p))
@@ -399,6 +400,26 @@ def exec_calls(arg):
                 idx = [op[1], op[2]]
             else:
                 idx = sorted(results)
+            # a parent that instantiates every result, those of non-caching generators included
+            # (fresh modules with equal names by design): refused, or else a closed package
+            allmods = []
+            for j in idx:
+                if j in results and not any(results[j] is x for x in allmods):
+                    allmods.append(results[j])
+            if any(j in uncached_results for j in idx) and len(allmods) >= 2:
+                par = h.Module(name=f"Par{i}")
+                for n_, mo in enumerate(allmods):
+                    conns_ = {pn: par.add(h.Signal(name=f"w{n_}_{pn}", width=port.width)) for pn, port in mo.ports.items()}
+                    par.add(mo(**conns_), name=f"u{n_}")
+                try:
+                    ppkg = h.to_proto(par)
+                except Exception as e:  # noqa
+                    probe("parent_export_refused:" + interp.norm_exc(e)[0])
+                else:
+                    probe("parent_export_with_uncached_results")
+                    cvp = netview.closed_violations(ppkg, netview.prim_ports_table(), check_tools=False)
+                    if cvp:
+                        findings.append({"prop": "C06", "clause": "closed", "detail": cvp[:3] + ["(parent instantiating results of a non-caching generator)"]})
             # results of generators that do not cache are fresh modules with equal names by design
             idx = [j for j in idx if j not in uncached_results]
             mods = []
